@@ -324,6 +324,36 @@ def rule_raw_bytes(ctx) -> None:
     ctx.chk.report("C14.raw-bytes exception: SegmentXmcd.parse_binary stores xmcd.export() (variable-length block kept in canonical form)")
 
 
+def rule_parse_fallthrough(ctx) -> None:
+    """C14.parse-fallthrough: in every segment's parse_binary a path that has parsed the block successfully (delegated to the raw
+    parser, or marked the segment as parsed) never runs into a raise."""
+    chk, prog = ctx.chk, ctx.prog
+    SEGS = "spsdk/image/bootable_image/segments.py"
+    m = ctx.m(SEGS)
+    n = 0
+    for k in prog.classes.values():
+        if k.module is not m:
+            continue
+        fn = k.method("parse_binary")
+        if fn is None:
+            continue
+        n += 1
+        try:
+            ps = A.paths(A.body_of(fn.node))
+        except OverflowError:
+            raise AnalysisError(f"C14.parse-fallthrough: too many paths in {fn.qual}")
+        bad = []
+        for stmts, end in ps:
+            if end != "raise":
+                continue
+            marks = [norm(s) for s in stmts[:-1] if norm(s).startswith("super().parse_binary(") or norm(s) == "self.not_parsed = False"]
+            if marks:
+                bad.append((marks[-1], norm(stmts[-1])[:70]))
+        chk.decide(not bad, "C14.parse-fallthrough", fn.qual, f"none of {len(ps)} paths raises after the block was parsed",
+                   f"after `{bad[0][0]}` the path runs into `{bad[0][1]}`" if bad else "", "return after the successful parse", A.loc(SEGS, fn.node))
+    chk.floor("C14.parse-fallthrough", 8)
+
+
 def run(ctx) -> None:
     ctx.chk.explain("C14: all (family, revision, memory type) segment tables of the database are linted against the Segment class model reconstructed from the AST (names resolve, "
                     "static offsets increase in declaration order, fixed-size segments end before the next one, an application container exists, patterns valid); the dynamic "
@@ -334,6 +364,7 @@ def run(ctx) -> None:
     ctx.rule(rule_predicates)
     ctx.rule(rule_pattern_and_export)
     ctx.rule(rule_raw_bytes)
+    ctx.rule(rule_parse_fallthrough)
     ctx.chk.assumptions = ["segment payload parsers are decided by their own properties (C01/C06/C07/C12)", "BinaryImage composition is decided in C16",
                            "not decided: byte equality after parse, floating-segment search inside binaries"]
 
